@@ -173,6 +173,50 @@ def run(run, replay=None):
                     fails.append(("registration-order", {"kind": "registration-order", "when": "restart"}, dict(o, after_restart=again)))
     finally:
         srv.stop()
+    # the interleaving model WITH data against the real server at an intermediate state: the updater is held between its
+    # two critical sections (hook), so the user dictionary already holds a registered word that conversions do not offer
+    # yet — a state the atomic model does not have and the fine-grained model (Model/Fine) predicts
+    fine = None
+    for (kind_, rd_, w_) in [("CommonNoun", "てすと", "試験"), ("Guess", "かかない", "書かない")]:
+        srv = S.Server(bindir, dic, None, workers=4, env={"CHOKAN_VERIF_DELAY_UPDATER_DICT": "1500"})
+        try:
+            if not srv.wait_listening():
+                continue
+            probe = rd_ if kind_ == "CommonNoun" else "かか"
+            t0 = time.time()
+            st_, _ = srv.rpc("RegisterWord", {"kind": kind_, "reading": rd_, "word": w_}, timeout=10.0)
+            # wait until the updater's first section has happened (the entry is in the user dictionary), then look at once
+            d_mid, t_prev = None, time.time()
+            while time.time() - t0 < 5.0:
+                t_poll = time.time()
+                d_mid = srv.dump()
+                if d_mid and d_mid["user_entries"]:
+                    break
+                t_prev = t_poll
+                time.sleep(0.02)
+            mid = S.texts(srv.conv(probe, timeout=10.0)) or []
+            # the entry was added after t_prev; the hook holds the updater for 1.5 s from then: were we inside the window?
+            late = (time.time() - t_prev) > 1.2 or not (d_mid and d_mid["user_entries"])
+            time.sleep(max(0.0, 1.7 - (time.time() - t_prev)))
+            # the updater's second section: wait (up to 8 s) until the answer changes
+            S.wait_until(lambda: (S.texts(srv.conv(probe, timeout=10.0)) or []) != mid or None, 8.0, step=0.1)
+            after = S.texts(srv.conv(probe, timeout=10.0)) or []
+            real = "ok between_user=%d between=%s after=%s answered=true" % (
+                len(d_mid["user_entries"]) if d_mid else -1, ",".join(S.dot(t) for t in mid), ",".join(S.dot(t) for t in after))
+            out = run.run_driver(["sload %s | %s | %s | 0" % (cl.cps(S.dic_text(S.STD)), cl.cps(S.dic_text(S.ANC)), cl.cps(S.dic_text(S.TANKAN))),
+                                  "sfine-updater-split %s %s | %s | %s" % (kind_, cl.cps(rd_), cl.cps(w_), cl.cps(probe))])
+            if out is None or st_ != "ok":
+                continue
+            fine = {"registration": [kind_, rd_, w_], "probe": probe, "real": real, "model": out[1], "looked_inside_window": not late}
+            obs.append({"clients": 1, "delays": {"CHOKAN_VERIF_DELAY_UPDATER_DICT": "1500"}, "conversions": 2, "confirmations": 0,
+                        "errors": [], "hung_threads": 0, "fine_model": fine})
+            if not late and out[1] != real:
+                run.failures.append(cl.Failure("correspondence", "the interleaving model with data (Model/Fine) and the real server disagree on the "
+                                               "state between the updater's two critical sections: %s" % json.dumps(fine, ensure_ascii=False)[:400],
+                                               detail=json.dumps(fine, ensure_ascii=False)))
+        finally:
+            srv.stop()
+    run.cov["fine_model_intermediate_state"] = fine
     for kind, key, w in fails[:6]:
         run.failures.append(cl.Failure("oracle", "server violates C14 (%s): %s" % (kind, json.dumps(w, ensure_ascii=False)[:300]), witness=w, key=key))
     run.cov.update({"evaluations": sum(o["conversions"] + o["confirmations"] for o in obs), "distinct_nontrivial": len(obs),
